@@ -52,7 +52,6 @@ class Checker:
         self.pending_call = None
         self.failed = None  # payload of the most recent failed send still in the TX FIFO
         self.acks = []  # ACK payloads loaded at the peer, oldest first
-        self.unread = []  # ACK payloads received under send_only=True and never read by the caller
         self.call = None
 
     def step(self, k, cur, op, res, prev, snaps, obj, log):
@@ -115,16 +114,9 @@ class Checker:
         if acked and m["mode"] == "ackpl" and not send_only and m["peer"]:
             exp = self.acks.pop(0) if self.acks else None
             if exp is not None and got_payload != exp:
-                # ACK payloads that earlier send_only=True calls left in the RX FIFO (the caller chose to read them
-                # himself and did not) come out first: FIFO order, not a wrong answer
-                if got_payload in self.unread:
-                    self.unread.remove(got_payload)
-                    self.unread.append(exp)
-                else:
-                    return ("C02/ack-payload-not-returned", "returned %s, the peer had loaded %s" % (val, exp.hex()))
+                return ("C02/ack-payload-not-returned", "returned %s, the peer had loaded %s" % (val, exp.hex()))
         elif acked and m["mode"] == "ackpl" and m["peer"] and self.acks:
-            self.unread.append(self.acks.pop(0))
-            self.unread = self.unread[:3]   # a full RX FIFO drops what comes later
+            self.acks.pop(0)
         # leak: after the call the TX FIFO holds at most the payload that just failed
         txf = snaps[0]["tx"]
         if delivered:
